@@ -1,7 +1,8 @@
 (* C03 — a Runtime stays consistent and reusable after every kind of abrupt outcome.
    ONLY theorem statements; each is closed by [exact] of a lemma of C03/Proofs.v.
-   Model: C03/Model.v.  [fixed = false] is goja's bookkeeping algorithm as on the current tree (I), [fixed = true] the
-   repaired algorithm (S); wherever I deviates from S the ghost field [leaked] grows (ids 16, 21, 22 = the open findings).
+   Model: C03/Model.v.  [fixed = true] is goja's bookkeeping algorithm as on the current tree (the findings F16, F17, F21,
+   F22 are repaired in /repo); [fixed = false] is the algorithm before the repairs of F16/F21/F22: wherever it deviates
+   the ghost field [leaked] grows (ids 16, 21, 22).
    An execution tree is a [node] (19 kinds: run-loop items and native actions); [api] is one outermost API call;
    [exec]/[api_exec] take fuel, [RStuck]/[OStuck] = out of fuel or an ill-formed tree (a native action among run-loop
    items or vice versa). *)
@@ -27,6 +28,18 @@ Theorem idle_restored : forall lim faults fuel a st,
   snd (api_exec lim faults true fuel a st) <> RStuck ->
   idle_regs (fst (api_exec lim faults true fuel a st)) = true.
 Proof. exact Proofs.idle_restored. Qed.
+
+(* 2b. ... and after an outermost RunProgram / Callable the job queue is empty as well (drained by leave, dropped by
+      leaveAbrupt or by the foreign-panic exit), whatever the outcome. *)
+Theorem idle_restored_jobs : forall lim faults fuel body st,
+  idle_regs st = true ->
+  (snd (api_exec lim faults true fuel (ARun body) st) <> RStuck ->
+   idle_regs (fst (api_exec lim faults true fuel (ARun body) st)) = true /\
+   jq (fst (api_exec lim faults true fuel (ARun body) st)) = []) /\
+  (snd (api_exec lim faults true fuel (ACall body) st) <> RStuck ->
+   idle_regs (fst (api_exec lim faults true fuel (ACall body) st)) = true /\
+   jq (fst (api_exec lim faults true fuel (ACall body) st)) = []).
+Proof. exact Proofs.idle_restored_jobs. Qed.
 
 Example idle_restored_nonvacuous :
   (* limit 7, a JS exception at the 3rd probe inside a for-of inside try inside a native callback inside a getter *)
@@ -116,25 +129,19 @@ Proof. exact Proofs.uncatchable_never_caught. Qed.
 Theorem handleThrow_shrinks : forall p s, (length (ts (fst (handle_throw p s))) <= length (ts s))%nat.
 Proof. exact Proofs.handleThrow_shrinks. Qed.
 
-(* 7. The guard of 1 is needed: the open findings, exhibited by the faithful model (each replayed on the implementation
-      by the correspondence check); in each the repaired algorithm is idle, and the ghost list names the finding. *)
-Theorem idle_refuted_F16 : exists lim faults a,
-  idle_after lim faults false a = false /\ idle_after lim faults true a = true /\ deviations lim faults a = [16%nat].
-Proof. exact Proofs.idle_refuted_F16. Qed.
-Theorem idle_refuted_F16_overflow : exists lim faults a,
-  idle_after lim faults false a = false /\ idle_after lim faults true a = true /\ deviations lim faults a = [16%nat].
-Proof. exact Proofs.idle_refuted_F16_overflow. Qed.
-Theorem idle_refuted_F22 : exists lim faults a,
-  idle_after lim faults false a = false /\ idle_after lim faults true a = true /\ deviations lim faults a = [22%nat; 22%nat].
-Proof. exact Proofs.idle_refuted_F22. Qed.
-Theorem nested_refuted_F21 : nested_regs false <> nested_regs true /\ deviations (Some 2%nat) [] w21 = [21%nat].
-Proof. exact Proofs.nested_refuted_F21. Qed.
-(* F17 is repaired in /repo (60d9770): its former witness is idle under the current algorithm *)
-Theorem idle_F17_repaired : idle_after (Some 0%nat) [] false w17 = true /\ deviations (Some 0%nat) [] w17 = [].
-Proof. exact Proofs.idle_F17_repaired. Qed.
+(* 7. The former findings F16 (195c9cc), F17 (60d9770), F21 (82237e3), F22 (7d68b51) are repaired in /repo; the model
+      the correspondence check uses is the repaired algorithm ([fixed = true], theorem 2 applies without a guard), and
+      the former witnesses are idle.  ([fixed = false] keeps the pre-repair algorithm for the record; theorem 1 covers
+      it outside the regions where it deviated.) *)
+Theorem former_findings_repaired :
+  idle_after None [(0%nat, FIntr)] w16 = true /\ idle_after (Some 3%nat) [] w16b = true /\
+  idle_after None [(0%nat, FIntr)] w16c = true /\ idle_after (Some 0%nat) [] w17 = true /\
+  idle_after (Some 2%nat) [] w21 = true /\ idle_after None [(0%nat, FGo)] w22 = true.
+Proof. exact Proofs.former_findings_repaired. Qed.
 
 Print Assumptions idle_restored_partial.
 Print Assumptions idle_restored.
+Print Assumptions idle_restored_jobs.
 Print Assumptions history_idle.
 Print Assumptions nested_entry_restored.
 Print Assumptions next_run_equivalent.
@@ -142,8 +149,4 @@ Print Assumptions handleThrow_restores.
 Print Assumptions handleThrow_idem.
 Print Assumptions uncatchable_never_caught.
 Print Assumptions handleThrow_shrinks.
-Print Assumptions idle_refuted_F16.
-Print Assumptions idle_refuted_F16_overflow.
-Print Assumptions idle_refuted_F22.
-Print Assumptions nested_refuted_F21.
-Print Assumptions idle_F17_repaired.
+Print Assumptions former_findings_repaired.
